@@ -55,6 +55,7 @@ static void threads_setup(void)
 		if (sm9_sign_master_key_generate(&g_t_sm9m[i]) != 1 || sm9_sign_master_key_extract_key(&g_t_sm9m[i], "carol", 5, &g_t_sm9k[i]) != 1
 		    || sm9_enc_master_key_generate(&g_t_sm9em[i]) != 1 || sm9_enc_master_key_extract_key(&g_t_sm9em[i], "dave", 4, &g_t_sm9ek[i]) != 1) die("threads setup");
 	(void)creds_get(1, 0); (void)creds_get(2, 0); (void)creds_get(1, 1);
+	(void)creds_get_eku(1, 0); (void)creds_get_eku(2, 0); (void)creds_get_eku(1, 1);
 	g_t_ready = 1;
 }
 
@@ -71,10 +72,10 @@ static void script_task(void *arg)
 	uint8_t buf[2048], out[2304], key[32], iv[16];
 	w->digest = 0x7a5c;
 	for (int i = 0; i < w->nops; i++) {
-		int op = (int)rng_below(&r, 24);
+		int op = (int)rng_below(&r, 25);
 		if (g_tp->afail_at >= 0 && rng_chance(&r, 1, 2)) op = 12;      /* the operation that allocates */
-		if (g_tp->op > 0 && rng_chance(&r, 3, 4)) op = (int)(g_tp->op - 1) % 24;   /* storm: every script task mostly runs the same kind of operation */
-		size_t n = 1 + rng_below(&r, 1500);
+		if (g_tp->op > 0 && rng_chance(&r, 3, 4)) op = (int)(g_tp->op - 1) % 25;   /* storm: every script task mostly runs the same kind of operation */
+		size_t n = 8 + rng_below(&r, 1493);      /* at least 8: several operations split the input in halves or thirds, and a zero-length update is an error */
 		rng_bytes(&r, buf, n); rng_bytes(&r, key, 32); rng_bytes(&r, iv, 16);
 		DI(w, op);
 		switch (op) {
@@ -214,6 +215,21 @@ static void script_task(void *arg)
 				free(txt);
 			}
 			break; }
+		case 24: { /* printing a ClientHello of another TLS stack: cipher suites and extensions this library has no name for */
+			uint8_t rec[256]; size_t k = 0; char *txt = NULL; size_t tl = 0;
+			uint16_t base = (uint16_t)(0x0a0a + 0x1010 * (w->id % 14));           /* GREASE-like, a different set per task */
+			rec[k++] = 22; rec[k++] = 3; rec[k++] = 3; k += 2;                      /* record header, length below */
+			rec[k++] = 1; k += 3;                                                   /* ClientHello, length below */
+			rec[k++] = 3; rec[k++] = 3; memcpy(rec + k, buf, 32); k += 32; rec[k++] = 0;
+			rec[k++] = 0; rec[k++] = 6; rec[k++] = (uint8_t)(base >> 8); rec[k++] = (uint8_t)base; rec[k++] = 0xe0; rec[k++] = 0x13; rec[k++] = (uint8_t)(base >> 8); rec[k++] = (uint8_t)(base + 1);
+			rec[k++] = 1; rec[k++] = 0;
+			rec[k++] = 0; rec[k++] = 10;                                            /* two extensions of unknown type */
+			rec[k++] = (uint8_t)(base >> 8); rec[k++] = (uint8_t)base; rec[k++] = 0; rec[k++] = 1; rec[k++] = 0;
+			rec[k++] = (uint8_t)(base >> 8); rec[k++] = (uint8_t)(base + 2); rec[k++] = 0; rec[k++] = 1; rec[k++] = 7;
+			rec[3] = (uint8_t)((k - 5) >> 8); rec[4] = (uint8_t)(k - 5); rec[6] = 0; rec[7] = (uint8_t)((k - 9) >> 8); rec[8] = (uint8_t)(k - 9);
+			FILE *mf = open_memstream(&txt, &tl);
+			if (mf) { DI(w, tls_record_print(mf, rec, k, 0, 0)); fclose(mf); D(w, txt, tl); free(txt); }
+			break; }
 		default: { /* ECDH between two fresh keys: both sides must agree */
 			SM2_KEY a, b; SM2_Z256_POINT s1, s2; uint8_t x1[64], x2[64];
 			DI1(w, sm2_key_generate(&a)); DI1(w, sm2_key_generate(&b));
@@ -236,7 +252,7 @@ static void conn_task(void *arg)
 	DI(w, ep->hs_ret); DI(w, ep->io_err); DI(w, (int64_t)ep->wrote[0]); DI(w, (int64_t)ep->wrote[1]);
 	DI(w, (int64_t)ep->got[0]); DI(w, (int64_t)ep->got[1]);
 	if (ep->hs_ret == 1) { D(w, ep->keys.master_secret, 48); D(w, ep->keys.key_block, 96); D(w, ep->keys.cw_iv, 12); D(w, ep->keys.sw_iv, 12); }
-	if (ep->hs_ret != 1) wfail(w, "handshake");
+	if (ep->hs_ret != 1 && !(g_tp->cred_mode & 64)) wfail(w, "handshake");
 	else if (ep->io_err) wfail(w, ep->io_err_what);
 	w->ops_done = 1;
 }
@@ -267,7 +283,8 @@ static void threads_gen(Plan *p, uint64_t base_seed, uint64_t variant, int tier)
 	p->eagain = rng_chance(&g, 1, 3);
 	/* a third of the plans are storms of one operation kind: two tasks are then inside the same library function
 	 * far more often than in a mixed workload, which is what function-local shared state needs to show */
-	p->op = rng_chance(&g, 1, 3) ? 1 + rng_below(&g, 24) : 0;
+	p->op = rng_chance(&g, 1, 3) ? 1 + rng_below(&g, 25) : 0;
+	if (p->victim > 0 && rng_chance(&g, 1, 4)) p->cred_mode |= 64;
 	if (rng_chance(&g, 1, 4)) { p->afail_node = -2; p->afail_at = rng_below(&g, 3); p->afail_rest = rng_chance(&g, 2, 3); }
 	else if (rng_chance(&g, 1, 4)) {
 		int pairs = (int)p->victim; if (pairs * 2 > p->ntasks) pairs = (int)p->ntasks / 2;
@@ -318,7 +335,10 @@ static void threads_exec(const Plan *p, int preempt)
 			int ci = i / 2, side = i % 2;
 			Conn *c = side == 0 ? net_conn_new(&k, (uint64_t)p->net_seed + (uint64_t)ci) : &g_conns[ci];
 			Endpoint *ep = &g_ep[ci * 2 + side];
-			if (ep_setup(ep, side, c, p, cs, i) != 1) die("ep_setup");
+			/* cred_mode 64: the servers present chains under another root than the clients trust, so every
+			 * connection task ends in the alert path (bad certificate), several of them at the same time */
+			const CredSet *use = (p->cred_mode & 64) && side == 1 ? creds_get_eku((int)p->depth, p->proto == P_TLCP) : cs;
+			if (ep_setup(ep, side, c, p, use, i) != 1) die("ep_setup");
 			w->ep = ep; w->conn_side = side;
 		}
 	}
